@@ -83,7 +83,7 @@ fn main() {
             match engine.replay(&campaign, &doc["case"]) {
                 Ok(Ok(())) => {
                     println!("REPLAY-PASS property={id} campaign={campaign}: the recorded case satisfies the property on this tree ({})",
-                        if cfg!(debug_assertions) { "checked profile" } else if vcheck::engine::ALT_CONFIG { "release profile, second library configuration: no std, lexical-core compact" } else { "release profile" });
+                        if cfg!(debug_assertions) { "checked profile" } else if vcheck::engine::MIN_CONFIG { "release profile, third library configuration: no alloc, no unit features, arrayvec + compact" } else if vcheck::engine::ALT_CONFIG { "release profile, second library configuration: no std, lexical-core compact" } else { "release profile" });
                     std::process::exit(0);
                 }
                 Ok(Err(f)) => {
